@@ -1,6 +1,7 @@
 package main
 
 import (
+	"bytes"
 	"encoding/hex"
 	"encoding/json"
 	"fmt"
@@ -195,28 +196,100 @@ func init() {
 			}
 			return strings.Join(out, "|")
 		}
-		lib := q(func() string {
-			js, err := json.Marshal(us)
-			if err != nil {
-				return "err"
+		// a wallet's current list: outputs of ONE funding transaction, built around the same txid slice and the same
+		// script object, as many as (and more than) the list being decoded
+		shared := func(n int) bt.UTXOs {
+			id := bytes.Repeat([]byte{0x5a}, 32)
+			sc := scr([]byte{0x53})
+			l := make(bt.UTXOs, n)
+			for i := range l {
+				l[i] = &bt.UTXO{TxID: id, Vout: uint32(i), Satoshis: uint64(10 + i), LockingScript: sc}
 			}
-			u2 := stale()
-			if err := json.Unmarshal(js, &u2); err != nil {
-				return "err"
+			return l
+		}
+		// the first result that is not the list itself, else the list
+		pick := func(rs ...string) string {
+			for _, r := range rs {
+				if r != a[0] {
+					return r
+				}
 			}
-			return show(u2)
-		})
-		node := q(func() string {
-			js, err := json.Marshal(us.NodeJSON())
-			if err != nil {
-				return "err"
-			}
-			u2 := stale()
-			if err := json.Unmarshal(js, u2.NodeJSON()); err != nil {
-				return "err"
-			}
-			return show(u2)
-		})
+			return a[0]
+		}
+		libInto := func(dst bt.UTXOs) string {
+			return q(func() string {
+				js, err := json.Marshal(us)
+				if err != nil {
+					return "err"
+				}
+				if err := json.Unmarshal(js, &dst); err != nil {
+					return "err"
+				}
+				return show(dst)
+			})
+		}
+		nodeInto := func(dst bt.UTXOs) string {
+			return q(func() string {
+				js, err := json.Marshal(us.NodeJSON())
+				if err != nil {
+					return "err"
+				}
+				if err := json.Unmarshal(js, dst.NodeJSON()); err != nil {
+					return "err"
+				}
+				return show(dst)
+			})
+		}
+		// element by element into populated objects; and: decoding the next UTXO into a variable that already funded a
+		// transaction leaves that transaction alone
+		each := func(node bool) string {
+			return q(func() string {
+				dst := shared(len(us))
+				var u bt.UTXO
+				var tx *bt.Tx
+				var txBefore []byte
+				for i, x := range us {
+					var js []byte
+					var err error
+					if node {
+						js, err = json.Marshal(x.NodeJSON())
+					} else {
+						js, err = json.Marshal(x)
+					}
+					if err != nil {
+						return "err"
+					}
+					if node {
+						err = json.Unmarshal(js, dst[i].NodeJSON())
+						if err == nil {
+							err = json.Unmarshal(js, u.NodeJSON())
+						}
+					} else {
+						err = json.Unmarshal(js, dst[i])
+						if err == nil {
+							err = json.Unmarshal(js, &u)
+						}
+					}
+					if err != nil {
+						return "err"
+					}
+					if tx != nil && !bytes.Equal(txBefore, tx.ExtendedBytes()) {
+						return "decoding-the-next-utxo-changed-a-funded-tx"
+					}
+					if tx == nil && len(u.TxID) == 32 && u.LockingScript != nil {
+						tx = bt.NewTx()
+						if tx.FromUTXOs(&u) == nil {
+							txBefore = tx.ExtendedBytes()
+						} else {
+							tx = nil
+						}
+					}
+				}
+				return show(dst)
+			})
+		}
+		lib := pick(libInto(stale()), libInto(shared(len(us))), libInto(shared(len(us)+2)), each(false))
+		node := pick(nodeInto(stale()), nodeInto(shared(len(us))), nodeInto(shared(len(us)+2)), each(true))
 		return "lib=" + lib + " node=" + node
 	}
 	generators["C16"] = genC16
